@@ -446,6 +446,14 @@ class Kernel:
             elif op == OP_TUN_WRITE:
                 fd = struct.unpack_from("<i", msg, 1)[0]
                 data = bytes(msg[5:])
+                wf = getattr(p, "tun_write_faults", None)
+                if wf:
+                    # injected failure of write() on the tun descriptor (EIO: interface administratively down, ENOBUFS: input
+                    # queue full, EAGAIN): nothing reaches the interface
+                    e = wf.pop(0)
+                    self.emit("tun_write_error", p.name, data=data, errno=e, cause=p.cause)
+                    self._reply(p, struct.pack("<i", -e))
+                    continue
                 self.emit("tun_write", p.name, data=data, cause=p.cause)
                 self._reply(p, struct.pack("<i", len(data)))
             elif op == OP_SYSTEM:
@@ -564,6 +572,15 @@ class Kernel:
         p.tun_queue.append((fid, frame))
         self.emit("tun_offer", pname, id=fid, data=frame)
         self._poke(p)
+
+    def fail_tun_writes(self, pname, errno_, n=1):
+        """The next n write()s on the process's tun descriptor fail with errno_ (the frame is not delivered)."""
+        p = self.procs[pname]
+        if not p.alive():
+            return
+        if getattr(p, "tun_write_faults", None) is None:
+            p.tun_write_faults = []
+        p.tun_write_faults.extend([int(errno_)] * n)
 
     def offer_tun_error(self, pname, errno_):
         """The next read() on the process's tun descriptor (which select reports readable) fails with errno_."""
